@@ -846,7 +846,7 @@ class KafkaCodec(object):
         :param str consumer_group: string
         """
         message = cls._encode_message_header(client_id, correlation_id, KafkaCodec.CONSUMER_METADATA_KEY)
-        message += write_short_ascii(consumer_group)
+        message += write_short_text(consumer_group)
         return message
 
     @classmethod
@@ -892,9 +892,9 @@ class KafkaCodec(object):
             api_version=1,
         )
 
-        message += write_short_ascii(group)
+        message += write_short_text(group)
         message += struct.pack(">i", group_generation_id)
-        message += write_short_ascii(consumer_id)
+        message += write_short_text(consumer_id)
         message += struct.pack(">i", len(grouped_payloads))
 
         for topic, topic_payloads in grouped_payloads.items():
@@ -940,7 +940,7 @@ class KafkaCodec(object):
         grouped_payloads = group_by_topic_and_partition(payloads)
         message = cls._encode_message_header(client_id, correlation_id, KafkaCodec.OFFSET_FETCH_KEY, api_version=1)
 
-        message += write_short_ascii(group)
+        message += write_short_text(group)
         message += struct.pack(">i", len(grouped_payloads))
 
         for topic, topic_payloads in grouped_payloads.items():
